@@ -1,8 +1,10 @@
 package main
 
 import (
+	"fmt"
 	"go/token"
 	"go/types"
+	"sort"
 	"strings"
 
 	"golang.org/x/tools/go/ssa"
@@ -415,4 +417,140 @@ func ruleGUARD1(c *Ctx) []Ob {
 		}
 	}
 	return o.list
+}
+
+// ---------------------------------------------------------------- STATE1
+
+// STATE1: the database handle keeps no mutable state that a transaction can
+// change. A field of the handle type (the receiver type of the functions that
+// open transactions) is not assigned, updated as a map/slice, or mutated
+// through sync.Map / sync/atomic inside the scope of a transaction (a function
+// that received a store.Tx, or after the Begin of the function that opened
+// one): a rollback - and another handle, and another process - do not see the
+// change undone, so what the cache says and what the store says diverge.
+func ruleSTATE1(c *Ctx) []Ob {
+	o := newObs(c, "STATE1")
+	handles := map[*types.Named]bool{}
+	begins := map[*ssa.Function][]*ssa.Call{}
+	for _, op := range c.openers() {
+		if c.pkgRel(op.Fn) != "" {
+			continue
+		}
+		begins[rootFunc(op.Fn)] = append(begins[rootFunc(op.Fn)], op.Call)
+		if n := recvNamed(op.Fn); n != nil {
+			handles[n] = true
+		}
+	}
+	if len(handles) == 0 {
+		o.add(UNDECIDED, "handle", "-", "no receiver type of a transaction opener found")
+		return o.list
+	}
+	inTxScope := func(fn *ssa.Function, at ssa.Instruction) (bool, string) {
+		for f := fn; f != nil; f = f.Parent() {
+			for _, p := range f.Params {
+				if c.libNamedIs(p.Type(), "store", "Tx") {
+					return true, "the function works on a transaction it was given"
+				}
+			}
+		}
+		for _, b := range begins[rootFunc(fn)] {
+			if fn != rootFunc(fn) || reachesAfter(b, at) {
+				return true, "the transaction opened at " + relPath(c, b.Pos()) + " is in progress"
+			}
+		}
+		return false, ""
+	}
+	handleField := func(addr ssa.Value) (string, bool) {
+		for _, og := range origins(addr) {
+			if _, f, n := fieldOfAddr(og); n != nil && handles[n] {
+				return namedName(n) + "." + f, true
+			}
+		}
+		if _, f, n := fieldOfAddr(addr); n != nil && handles[n] {
+			return namedName(n) + "." + f, true
+		}
+		return "", false
+	}
+	mutators := map[string]bool{
+		"(*sync.Map).Store": true, "(*sync.Map).Delete": true, "(*sync.Map).LoadOrStore": true, "(*sync.Map).LoadAndDelete": true,
+		"(*sync.Map).Swap": true, "(*sync.Map).CompareAndSwap": true, "(*sync.Map).CompareAndDelete": true, "(*sync.Map).Clear": true,
+	}
+	nsites := 0
+	for _, fn := range c.LibFuncs {
+		if c.pkgRel(fn) != "" {
+			continue
+		}
+		k := 0
+		report := func(at ssa.Instruction, field, how string) {
+			nsites++
+			k++
+			key := fmt.Sprintf("%s/%s %s", c.fname(fn), how, field)
+			if k > 1 {
+				key = fmt.Sprintf("%s #%d", key, k)
+			}
+			if in, why := inTxScope(fn, at); in {
+				o.add(VIOLATED, key, relPath(c, at.Pos()), "%s is changed while %s: the change is not undone when the transaction rolls back (and is invisible to other handles), so later operations are answered from state the store does not have", field, why)
+			} else {
+				o.add(OK, key, relPath(c, at.Pos()), "%s changes outside any transaction", field)
+			}
+		}
+		for _, b := range fn.Blocks {
+			for _, in := range b.Instrs {
+				switch x := in.(type) {
+				case *ssa.Store:
+					if f, ok := handleField(x.Addr); ok {
+						// the constructor's literal is not a mutation of a live handle
+						if _, isAlloc := stripFieldBase(x.Addr).(*ssa.Alloc); isAlloc {
+							continue
+						}
+						report(x, f, "assigns")
+					}
+				case *ssa.MapUpdate:
+					for _, og := range origins(x.Map) {
+						if l, ok := og.(*ssa.UnOp); ok && l.Op == token.MUL {
+							if f, ok := handleField(l.X); ok {
+								report(x, f, "updates map")
+							}
+						}
+					}
+				case ssa.CallInstruction:
+					full := calleeFullName(x)
+					args := x.Common().Args
+					if mutators[full] && len(args) > 0 {
+						if f, ok := handleField(args[0]); ok {
+							report(x, f, "mutates")
+						}
+					}
+					if strings.HasPrefix(full, "sync/atomic.") && !strings.HasPrefix(full, "sync/atomic.Load") && len(args) > 0 {
+						if f, ok := handleField(args[0]); ok {
+							report(x, f, "atomically updates")
+						}
+					}
+					if strings.HasPrefix(full, "(*sync/atomic.") && (strings.Contains(full, ").Store") || strings.Contains(full, ").Add") || strings.Contains(full, ").Swap") || strings.Contains(full, ").CompareAndSwap")) && len(args) > 0 {
+						if f, ok := handleField(args[0]); ok {
+							report(x, f, "atomically updates")
+						}
+					}
+				}
+			}
+		}
+	}
+	var hs []string
+	for h := range handles {
+		hs = append(hs, h.Obj().Name())
+	}
+	sort.Strings(hs)
+	o.add(OK, "handle types", "-", "handle type(s) %s: %d sites change their fields, none inside a transaction", strings.Join(hs, ", "), nsites)
+	return o.list
+}
+
+// stripFieldBase: the base pointer of a (possibly nested) field address.
+func stripFieldBase(addr ssa.Value) ssa.Value {
+	for {
+		fa, ok := addr.(*ssa.FieldAddr)
+		if !ok {
+			return addr
+		}
+		addr = fa.X
+	}
 }
